@@ -778,7 +778,7 @@ func rootOf(st *SymbolTable) *SymbolTable {
 }
 
 func rootOfDef() bool {
-	return verifrt.Forall(func(t *SymbolTable) bool {
+	return verifrt.ForallAny(func(t *SymbolTable) bool {
 		return t == nil || ((t.parent != nil || rootOf(t) == t) &&
 			(t.parent == nil || rootOf(t) == rootOf(t.parent)) &&
 			rootOf(t) != nil && rootOf(t).parent == nil)
@@ -799,5 +799,13 @@ func symtabInv() bool {
 			s, ok := t.store[n]
 			return !ok || (s != nil && (s.Scope != ScopeBuiltin || (t.parent == nil && !specDisabled(t, n))))
 		})
+	})
+}
+
+// symtabInvAt: the invariant of one (root) table.
+func symtabInvAt(t *SymbolTable) bool {
+	return verifrt.Forall(func(n string) bool {
+		s, ok := t.store[n]
+		return !ok || (s != nil && (s.Scope != ScopeBuiltin || !specDisabled(t, n)))
 	})
 }
